@@ -1882,6 +1882,147 @@ func (e *c23Env) history() (int, bool) {
 	return n, complete
 }
 
+// ===========================================================================
+// Environment faults on the encoder side: a streaming encoder whose destination
+// writer fails its k-th Write must report the error and must not disturb any
+// other encoder/decoder, before or after it is closed (again).
+// ===========================================================================
+
+type c23FailWriter struct {
+	k, n int // fail the k-th Write (1-based); k = 0 never fails
+}
+
+func (w *c23FailWriter) Write(p []byte) (int, error) {
+	w.n++
+	if w.k > 0 && w.n >= w.k {
+		return 0, fmt.Errorf("c23: destination fails write #%d", w.n)
+	}
+	return len(p), nil
+}
+
+func (e *c23Env) writerFaults(only int) (cases int) {
+	r := e.r
+	type shape struct {
+		name  string
+		elems []interface{}
+	}
+	shapes := []shape{
+		{"list{7,hello,bytes}", []interface{}{7, "hello", []byte{1, 2, 3}}},
+		{"struct-elements", []interface{}{&c23S3{A: -129, B: []byte("x")}, &c23S1{A: 9}}},
+		{"map-elements", []interface{}{map[string]uint8{"b": 2, "a": 1}, "tail"}},
+		{"nested-lists", []interface{}{[]interface{}{1, []interface{}{2, 3}}, []interface{}{}, 4}},
+		{"bytes56", []interface{}{bytes.Repeat([]byte{0xab}, 56), []byte{}}},
+	}
+	// values written by the failing encoder: each shape as one list value, plus scalars
+	type val struct {
+		name string
+		v    interface{}
+	}
+	var vals []val
+	for _, sh := range shapes {
+		vals = append(vals, val{sh.name, sh.elems})
+	}
+	vals = append(vals, val{"struct", &c23S3{A: 7, B: []byte("hello")}}, val{"bytes", []byte("hello")}, val{"map", map[string][]int16{"k": {1, 2}}})
+	base := make([][]byte, len(shapes))
+	for i, sh := range shapes {
+		var err error
+		if base[i], err = c23FreshEncode(sh.elems); err != nil {
+			r.Sanity(false, "baseline of %s: %v", sh.name, err)
+			return
+		}
+	}
+	canary := &c23S3{A: 7, B: []byte("hello")}
+	canaryBytes, _ := c23FreshEncode(canary)
+	idx := 0
+	for _, v := range vals {
+		// number of Writes of a clean streaming encode of v
+		cw := &c23FailWriter{}
+		ce := RLP.NewEncoder(cw)
+		if err := ce.Encode(v.v); err != nil || ce.Close() != nil {
+			r.Sanity(false, "clean streaming encode of %s failed", v.name)
+			return
+		}
+		for k := 1; k <= cw.n+1; k++ {
+			for hi, h := range shapes {
+				for split := 0; split <= len(h.elems); split++ {
+					idx++
+					if only >= 0 && idx != only {
+						continue
+					}
+					cases++
+					r.Eval(1)
+					r.Nontrivial(fmt.Sprintf("wfault|%s|%d|%s|%d", v.name, k, h.name, split))
+					cs := c23Case{Phase: "wfault", Index: int64(idx), Note: fmt.Sprintf("failing encoder writes %s, destination fails write #%d of %d; healthy encoder writes %s, %d elements before the failed encoder is closed", v.name, k, cw.n, h.name, split)}
+					fail := func(sig, format string, a ...interface{}) {
+						r.Violation(sig, cs.Note+": "+fmt.Sprintf(format, a...), cs)
+					}
+					healthy := func(when string) {
+						var bs []byte
+						var err error
+						if p := ev.Catch(func() { bs, err = BC.MarshalToBytes(h.elems) }); p != "" || err != nil || !bytes.Equal(bs, base[hi]) {
+							fail("writer-fault-disturbs-MarshalToBytes", "%s: MarshalToBytes(%s) = %x want %x panic=%q err=%v", when, h.name, bs, base[hi], p, err)
+						}
+						var got c23S3
+						if p := ev.Catch(func() { _, err = BC.UnmarshalFromBytes(canaryBytes, &got) }); p != "" || err != nil || got.A != 7 || string(got.B) != "hello" || got.C != nil {
+							fail("writer-fault-disturbs-UnmarshalFromBytes", "%s: decoded %+v panic=%q err=%v", when, got, p, err)
+						}
+					}
+					// 1. the failing encoder
+					fw := &c23FailWriter{k: k}
+					e1 := RLP.NewEncoder(fw)
+					var err1 error
+					if p := ev.Catch(func() { err1 = e1.Encode(v.v) }); p != "" {
+						fail("failing-writer:Encode-panics", "%s", p)
+					}
+					// 2. healthy work before the failed encoder is closed, incl. a half-built list
+					healthy("before Close of the failed encoder")
+					var buf bytes.Buffer
+					e2 := RLP.NewEncoder(&buf)
+					var l2 Encoder
+					var err2 error
+					if p := ev.Catch(func() {
+						l2, err2 = e2.EncodeList()
+						for _, x := range h.elems[:split] {
+							if err2 == nil {
+								err2 = l2.Encode(x)
+							}
+						}
+					}); p != "" || err2 != nil {
+						fail("writer-fault-disturbs-streaming-encoder", "first part: panic=%q err=%v", p, err2)
+					}
+					// 3. close the failed encoder, twice (a deferred Close after an explicit one)
+					var errC error
+					for i := 0; i < 2; i++ {
+						if p := ev.Catch(func() { errC = e1.Close() }); p != "" {
+							fail("failing-writer:Close-panics", "Close #%d: %s", i+1, p)
+						}
+						if i == 0 && k <= cw.n && err1 == nil && errC == nil {
+							fail("failing-writer:error-not-reported", "neither Encode nor Close returned an error")
+						}
+					}
+					// 4. the healthy encoder goes on
+					if p := ev.Catch(func() {
+						for _, x := range h.elems[split:] {
+							if err2 == nil {
+								err2 = l2.Encode(x)
+							}
+						}
+						if err2 == nil {
+							err2 = e2.Close()
+						}
+					}); p != "" || err2 != nil {
+						fail("writer-fault-disturbs-streaming-encoder", "second part: panic=%q err=%v", p, err2)
+					} else if !bytes.Equal(buf.Bytes(), base[hi]) {
+						fail("writer-fault-disturbs-streaming-encoder", "healthy encoder wrote %x want %x", buf.Bytes(), base[hi])
+					}
+					healthy("after Close of the failed encoder")
+				}
+			}
+		}
+	}
+	return
+}
+
 // ---- batching ----
 
 type c23Batch struct {
@@ -2055,7 +2196,7 @@ func c23IntFamily() [][]byte {
 
 func TestVerifC23(t *testing.T) {
 	r := ev.Start(t, "C23", "exploration")
-	r.Rule("(A) round trip: typed value grammar built with reflect — leaves: int8/16/32/64/int, uint8/16/32/64/uint at every byte-length boundary, bool, string and []byte of length {0,1,2,55,56,255,256} incl. single bytes 00/7f/80/ff and nil []byte, [4]byte, [1]byte, *big.Int (nil,0,±1,±127..129,±2^64,±2^255) and big.Int fields; constructors {pointer, slice, [2]array, map[string], 1-field struct} applied to every leaf with all leaf values (depth 1), constructor∘constructor over every leaf with representative values (depth 2), a third constructor over depth-2 shapes (quick every 4th shape, thorough all; pairwise values), integer-keyed maps, every ordered pair of leaf types as a 2-field struct, 3-field structs over 7 leaf types, 2-field structs of depth-1 shapes. (B) decoder robustness: every byte string of length<=2 (+ 3-byte strings: quick first byte {b8,c3,f7,f8} x 17 boundary second bytes x all third bytes, thorough 15 boundary first bytes x all 65536 tails) into 24 target types and UnmarshalAny; every single-byte substitution (24 boundary values; thorough all 256 values for encodings of at most 10 bytes) and truncation of valid encodings of at most 24 (thorough 32) bytes into their own type; every structural mutation of those encodings (one sub-item replaced by the nil marker / empty list / empty bytes / 00, deleted, or duplicated); length-field family (b8..bf / f8..ff headers x 18 claimed sizes x payload lengths {0,1,claim-1,claim,claim+1} x 4 fills, also nested in a list); nested length-field family (a long-form list header around a long-form bytes or list header, and list{list{bytes}}, every combination of 9 claimed sizes per header from 56 to 2^64-1 in minimal and 8-byte form, with 0/1/5 trailing bytes, optionally after one well-formed element) into every target, plus a sequential per-case allocation measurement of both families through UnmarshalFromBytes (bound O(input)) and through the stream decoder (bound MaxSizeForBytes); integer family (byte strings of length 0..9 at the sign/width boundaries) into every integer type and bool. (B') pool hygiene, sequential on one P: after every accepted input of the structural, length-field, nested length-field and <=2-byte families (list-reading targets) the pooled BC.UnmarshalFromBytes must still decode an unrelated valid message. (B'') encoder pool hygiene, sequential on one P: every failing marshal shape (12 unencodable things — chan, func, float, complex, custom RLPEncodeSelf failing before / after 0..2 list elements or panicking, failing MarshalRLP / MarshalBinary, map with float key — at top level and nested at depth 1..3 in every slice/struct/map nesting after 0..2 well-formed elements) followed directly, or with a failing decode before / in between, by BC.MarshalToBytes of 7 well-formed values twice: the bytes must equal those of a brand-new unpooled encoder and decode back. (H) history family on one pinned goroutine (single P, collector off inside a history): every ordered pair (thorough: all mutations instead of a stated subset, and triples over every 40th call) of calls from an alphabet of pooled BC calls — valid marshals and unmarshals of 12 value shapes and 5 typed objects, every truncation and every structural mutation of their encodings (cuts inside inner typed objects included) into their own type / TypedObj / UnmarshalAny, samples of the length-field, nested length-field and nil-marker families, failing marshals — the last result must equal the result of the same call on a fresh, never pooled encoder/decoder. The sequential decoder-hygiene phase also follows REJECTED inputs with the canary and covers every structural mutation of typed-object encodings. (C) map determinism: every insertion order of up to 4 (thorough 6) keys. distinct_nontrivial = distinct (type, encoding) resp. (target, input) pairs")
+	r.Rule("(A) round trip: typed value grammar built with reflect — leaves: int8/16/32/64/int, uint8/16/32/64/uint at every byte-length boundary, bool, string and []byte of length {0,1,2,55,56,255,256} incl. single bytes 00/7f/80/ff and nil []byte, [4]byte, [1]byte, *big.Int (nil,0,±1,±127..129,±2^64,±2^255) and big.Int fields; constructors {pointer, slice, [2]array, map[string], 1-field struct} applied to every leaf with all leaf values (depth 1), constructor∘constructor over every leaf with representative values (depth 2), a third constructor over depth-2 shapes (quick every 4th shape, thorough all; pairwise values), integer-keyed maps, every ordered pair of leaf types as a 2-field struct, 3-field structs over 7 leaf types, 2-field structs of depth-1 shapes. (B) decoder robustness: every byte string of length<=2 (+ 3-byte strings: quick first byte {b8,c3,f7,f8} x 17 boundary second bytes x all third bytes, thorough 15 boundary first bytes x all 65536 tails) into 24 target types and UnmarshalAny; every single-byte substitution (24 boundary values; thorough all 256 values for encodings of at most 10 bytes) and truncation of valid encodings of at most 24 (thorough 32) bytes into their own type; every structural mutation of those encodings (one sub-item replaced by the nil marker / empty list / empty bytes / 00, deleted, or duplicated); length-field family (b8..bf / f8..ff headers x 18 claimed sizes x payload lengths {0,1,claim-1,claim,claim+1} x 4 fills, also nested in a list); nested length-field family (a long-form list header around a long-form bytes or list header, and list{list{bytes}}, every combination of 9 claimed sizes per header from 56 to 2^64-1 in minimal and 8-byte form, with 0/1/5 trailing bytes, optionally after one well-formed element) into every target, plus a sequential per-case allocation measurement of both families through UnmarshalFromBytes (bound O(input)) and through the stream decoder (bound MaxSizeForBytes); integer family (byte strings of length 0..9 at the sign/width boundaries) into every integer type and bool. (B') pool hygiene, sequential on one P: after every accepted input of the structural, length-field, nested length-field and <=2-byte families (list-reading targets) the pooled BC.UnmarshalFromBytes must still decode an unrelated valid message. (B'') encoder pool hygiene, sequential on one P: every failing marshal shape (12 unencodable things — chan, func, float, complex, custom RLPEncodeSelf failing before / after 0..2 list elements or panicking, failing MarshalRLP / MarshalBinary, map with float key — at top level and nested at depth 1..3 in every slice/struct/map nesting after 0..2 well-formed elements) followed directly, or with a failing decode before / in between, by BC.MarshalToBytes of 7 well-formed values twice: the bytes must equal those of a brand-new unpooled encoder and decode back. (W) destination-writer faults, pinned goroutine: a streaming encoder (RLP.NewEncoder) over a writer that fails its k-th Write, every k up to one past the number of writes, for 8 values (list, struct elements, map elements, nested lists, 56-byte bytes, struct, bytes, map): the error must be reported; a healthy streaming encoder builds each of 5 element lists with every split point before/after the failed encoder is closed (twice), and MarshalToBytes / UnmarshalFromBytes run before and after: all results must equal the clean baseline, no panic. (H) history family on one pinned goroutine (single P, collector off inside a history): every ordered pair (thorough: all mutations instead of a stated subset, and triples over every 40th call) of calls from an alphabet of pooled BC calls — valid marshals and unmarshals of 12 value shapes and 5 typed objects, every truncation and every structural mutation of their encodings (cuts inside inner typed objects included) into their own type / TypedObj / UnmarshalAny, samples of the length-field, nested length-field and nil-marker families, failing marshals — the last result must equal the result of the same call on a fresh, never pooled encoder/decoder. The sequential decoder-hygiene phase also follows REJECTED inputs with the canary and covers every structural mutation of typed-object encodings. (C) map determinism: every insertion order of up to 4 (thorough 6) keys. distinct_nontrivial = distinct (type, encoding) resp. (target, input) pairs")
 	r.Assume("a pointer to a nil slice/map/pointer has the same encoding (f8 00) as a nil pointer: the format cannot keep them apart, the decoder returns the former, and the comparison treats the two as one value",
 		"interface-typed fields and ordered TypedDict.Keys are encode-only resp. order-preserving by design and are not compared structurally (typed objects are compared through UnmarshalAny)",
 		"the independent RLP reader in the harness (with goloop's f8 00 = nil extension) is trusted for sizes and structure")
@@ -2162,6 +2303,10 @@ func TestVerifC23(t *testing.T) {
 			if got != c.Expected {
 				r.Violation("result-depends-on-history:replay", fmt.Sprintf("history %v: last call returned %s, expected %s", c.History, got, c.Expected), c)
 			}
+		case "wfault":
+			restore := hist.Pin()
+			e.writerFaults(int(c.Index))
+			restore()
 		case "enchyg":
 			prev := runtime.GOMAXPROCS(1)
 			e.encoderHygiene(int(c.Index))
@@ -2535,6 +2680,14 @@ func TestVerifC23(t *testing.T) {
 		r.Set("encoder_hygiene_cases", encCases)
 		r.Set("encoder_hygiene_failing_marshals", encFailed)
 		r.Sanity(encCases > 1000 && encFailed*10 > encCases*9, "encoder hygiene: %d cases, only %d failing marshals", encCases, encFailed)
+		// destination-writer faults of streaming encoders
+		{
+			restore := hist.Pin()
+			wf := e.writerFaults(-1)
+			restore()
+			r.Set("writer_fault_cases", wf)
+			r.Sanity(wf > 200, "too few writer-fault cases (%d)", wf)
+		}
 		// history family
 		if _, complete := e.history(); !complete {
 			exhaustive = false
